@@ -63,9 +63,26 @@ def generate(ctx):
             lines.insert(rng.randrange(len(lines) + 1), b"")
             data = b"\n".join(lines)
             kind += "+blank"
-        refid = recs[0][0].split()[0].encode()
+        # the reference looked for by the fifth reader (variants.findReference): any record, so that the corruption can
+        # sit before, at or after it
+        refid = recs[rng.randrange(len(recs))][0].split()[0].encode()
         for reader in READERS:
             cs.append(make_case(cid, reader, rng.random() < 0.5, refid, data, {"kind": "malformed:" + kind.split("+")[0], "nontrivial": True}))
+            cid += 1
+    # directed: a header without an ID (">" alone or ">" + white space) at every position relative to the reference record
+    for _ in range(12 if ctx.tier == "quick" else 120):
+        n = rng.randint(2, 5)
+        w = rng.choice([1, 3, 8])
+        recs = [(gen.rand_name(rng, i), gen.rand_seq(rng, w, gen.SYMS17)) for i in range(n)]
+        h = rng.randrange(n)
+        refi = rng.randrange(n)
+        refid = recs[refi][0].split()[0].encode()
+        recs2 = list(recs)
+        recs2[h] = (rng.choice(["", " ", "\t", "  "]), recs[h][1])
+        data = gen.layout(rng, recs2, rng.choice(["plain", "wrap", "crlf"]))
+        for reader in READERS:
+            cs.append(make_case(cid, reader, rng.random() < 0.5, refid, data,
+                                {"kind": "malformed:noid@%s" % ("before" if h < refi else "at" if h == refi else "after"), "nontrivial": True}))
             cid += 1
     return cs
 
